@@ -7,6 +7,8 @@ Driver for the characterisation models:   lake env lean --run PgVerif/Drv/Char.l
   meso <method> <geometry> [vol] [thick] [kelvin] [volwindow]    -> ok [widths] [areas] [volumes] [dist] [cum] [width increments] | refused
   hktail [widths] [vol]                         tail of the HK functions                        -> ok [avg widths] [dist] [cum]
   hkwidth <geometry> <d_mat> <l>                reported width                                  -> ok n/d | none
+  hksolve <geo> [ps] [key p] [widths]           `_solve_hk` loop, minimiser = measured single-point widths (table) -> ok [widths]
+  hksolvecy <geo> [ps] [loading] [key p] [key coverage] [widths]   `_solve_hk_cy` loop (coverage at ℚ with 101/100) -> ok [widths]
   mg <branch> <pore geometry>                   meniscus geometry table                         -> ok <name> | none
   gf <meniscus geometry>                        geometry factor                                 -> ok n/d | none
 -/
@@ -79,6 +81,18 @@ def step (ts : List String) : String :=
       | some r => "ok " ++ showRat r
       | none => "none"
     | _, _ => "bad-op"
+  | ["hksolve", geo, ps, kp, vals] =>
+    match parseRat geo, ratList ps, ratList kp, ratList vals with
+    | some geo, some ps, some kp, some vals =>
+      "ok " ++ showRatList (PgVerif.Model.Micro.solveHK (α := ℚ) (PgVerif.Model.Micro.tableSolve (kp.zip vals)) geo ps)
+    | _, _, _, _ => "bad-op"
+  | ["hksolvecy", geo, ps, loading, kp, kc, vals] =>
+    match parseRat geo, ratList ps, ratList loading, ratList kp, ratList kc, ratList vals with
+    | some geo, some ps, some loading, some kp, some kc, some vals =>
+      let table : List ((ℚ × ℚ) × ℚ) := (kp.zip kc).zip vals
+      "ok " ++ showRatList (PgVerif.Model.Micro.solveHKCY (α := ℚ)
+        (fun p c => PgVerif.Model.Micro.tableSolve table (p, c)) (101 / 100) geo ps loading)
+    | _, _, _, _, _, _ => "bad-op"
   | ["hkdispatch", m] =>
     match PgVerif.Model.Micro.dispatch m with
     | some (ry, cy) => s!"ok {ry} {cy}"
